@@ -52,6 +52,10 @@ WITNESSES = {
     "_verify_namespace_attribute": '[(cpp) namespace: "class::int::new::delete::switch::template"]\nstruct Foo:\n  0 [+1]  UInt  x\n',
     "_find_object_dependency_cycles": ('[$default byte_order: "LittleEndian"]\nstruct Foo:\n'
                                        "  a [+1]  UInt  b\n  b [+1]  UInt  a\n  c [+1]  UInt  d\n  d [+1]  UInt  c\n  e [+1]  UInt  f\n  f [+1]  UInt  e\n"),
+    # independent cycles all reached from one earlier field (a hub): the traversal order inside the cycle finder follows the
+    # iteration order of the hub's edge SET, so an unsorted report would vary with the hash seed
+    "_find_object_dependency_cycles#hub": ('[$default byte_order: "LittleEndian"]\nstruct Foo:\n  0 [+alpha0+bravo0+charlie0+delta0+echo0+foxtrot0]  UInt:8[]  hub\n'
+                                           + "".join("  %s1 [+1]  UInt  %s0\n  %s0 [+1]  UInt  %s1\n" % (w, w, w, w) for w in ("alpha", "bravo", "charlie", "delta", "echo", "foxtrot"))),
 }
 CORPUS = ["testdata/condition.emb", "testdata/enum.emb", "testdata/bits.emb", "testdata/parameters.emb", "testdata/virtual_field.emb",
           "testdata/nested_structure.emb", "testdata/imported_genfiles.emb", "testdata/complex_structure.emb"]
@@ -142,7 +146,7 @@ def main(args):
                     witness = WITNESSES.get(fn.split(".")[-1])
                     rep = None
                     # the function's own witness first, then every witness of the file's topic (syntax errors for util/error.py)
-                    cands = ([witness] if witness else []) + [w for k_, w in WITNESSES.items() if "#" in k_ and rel.endswith("util/error.py")]
+                    cands = ([witness] if witness else []) + [w for k_, w in WITNESSES.items() if "#" in k_ and (rel.endswith("util/error.py") or k_.split("#")[0] == fn.split(".")[-1])]
                     for w_ in cands:
                         ok, outs = seeds_agree(src_text=w_)
                         rep = {"reproduced": not ok, "inputs": w_, "outputs_by_seed": [o[2] for o in outs][:3]}
